@@ -23,6 +23,16 @@ fn ctx_ctors() -> Vec<Ctor> {
         ctor(2, |k| G::new(Op::IgnoreWithCtx, k)),
         ctor(1, |mut k| G::un(Op::CtxRep, k.remove(0))),
         ctor(1, |mut k| G::un(Op::CtxRep, k.remove(0)).with(|p| p.ok = false)),
+        // the configured repetition used as a plain parser (no collect), as a counter, and over static bounds it must replace
+        ctor(1, |mut k| G::un(Op::CtxRep, k.remove(0)).with(|p| p.flav = Flav::Unit)),
+        ctor(1, |mut k| G::un(Op::CtxRep, k.remove(0)).with(|p| p.flav = Flav::Count)),
+        ctor(1, |mut k| G::un(Op::CtxRep, k.remove(0)).with(|p| p.lead = true)),
+        ctor(1, |mut k| {
+            G::un(Op::CtxRep, k.remove(0)).with(|p| {
+                p.lead = true;
+                p.flav = Flav::Unit
+            })
+        }),
     ]
 }
 
